@@ -156,12 +156,15 @@ fn resolve<S: HasComponent<Component>>(
         token::Value::CommandRef(command_ref) => command_ref,
         _ => unreachable!(),
     };
-    let (array_index, array_len) = *input
-        .state()
-        .component()
-        .array_refs
-        .get(&command_ref)
-        .unwrap();
+    let Some(&(array_index, array_len)) = input.state().component().array_refs.get(&command_ref)
+    else {
+        // Arrays are looked up by the control sequence they were created with, so a \let alias
+        // of that control sequence cannot be resolved (see the documentation of \newIntArray).
+        return Err(input.fatal_error(error::SimpleTokenError::new(
+            token,
+            r"an array created by \newIntArray cannot be used through a \let alias",
+        )));
+    };
     let inner_index = parse::Uint::<{ parse::Uint::MAX }>::parse(input)?.0;
     if inner_index >= array_len {
         return Err(input.fatal_error(error::SimpleTokenError::new(
